@@ -50,7 +50,7 @@ def dump_mir(root):
     return Mir(p.stdout, srcs), time.time() - t0
 
 
-def native_test(root, srcfile, module_code, test_name, timeout=600):
+def native_test(root, srcfile, module_code, test_name, timeout=600, features=None):
     """Append a #[cfg(test)] module to a fresh copy of the current tree and run one test natively."""
     d = os.path.join(root, "native")
     shutil.rmtree(d, ignore_errors=True)
@@ -61,8 +61,8 @@ def native_test(root, srcfile, module_code, test_name, timeout=600):
     with open(os.path.join(d, "src", srcfile), "a") as f:
         f.write("\n" + module_code)
     env = dict(ENV, CARGO_TARGET_DIR=os.path.join(root, "target_native"))
-    p = subprocess.run(["cargo", "test", "--offline", "--lib", test_name, "--", "--nocapture", "--test-threads=1"],
-                       cwd=d, capture_output=True, text=True, env=env, timeout=timeout)
+    cmd = ["cargo", "test", "--offline", "--lib"] + (["--features", features] if features else []) + [test_name, "--", "--nocapture", "--test-threads=1"]
+    p = subprocess.run(cmd, cwd=d, capture_output=True, text=True, env=env, timeout=timeout)
     return p.returncode, p.stdout + p.stderr
 
 
